@@ -3,29 +3,9 @@
    list, key and value, given enough fuel (one unit per element). *)
 From Coq Require Import String.
 From Radius Require Import Base.Bytes Base.Res Base.GoLite Gen.Src Crypto.MD5 Proofs.SrcBase Proofs.SrcCtx Model.SrcRun
-  Model.Attrs Spec.C09.
+  Model.Attrs Spec.C09 Proofs.SrcDefs.
 Open Scope list_scope.
 Open Scope nat_scope.
-
-(* an element of an Attributes value: *AVP{Type, Attribute} *)
-Definition vavp (t : Z) (bv : val) : val := VRec [VInt t; bv].
-Definition is_slice (bv : val) : Prop := bv = VNil \/ exists l, bv = VBytes l.
-Inductive is_avp : val -> Prop :=
-| is_avp_intro t bv : is_slice bv -> is_avp (vavp t bv).
-Definition vkey (k : Z) (v : val) : bool :=
-  match v with VRec (VInt t :: _) => (t =? k)%Z | _ => false end.
-Definition vattr (v : val) : val := match v with VRec [_; bv] => bv | _ => VNil end.
-
-(* abstraction to the model's attribute list *)
-Definition abs_avp (v : val) : avp :=
-  match v with
-  | VRec [VInt t; bv] => mkavp t (match as_bytes bv with Some l => l | None => [] end)
-  | _ => mkavp 0 []
-  end.
-Definition abs_attrs (vl : list val) : attrs := map abs_avp vl.
-
-Lemma vkey_abs k v : is_avp v -> vkey k v = is_key k (abs_avp v).
-Proof. intros H; destruct H; reflexivity. Qed.
 
 (* ---- Lookup ---- *)
 Definition lookup_result (k : Z) (vl : list val) : val :=
@@ -34,24 +14,8 @@ Definition lookup_result (k : Z) (vl : list val) : val :=
   | None => VTup [VNil; VBool false]
   end.
 
-Lemma firstn_S_nth_error {A} (l : list A) i x : nth_error l i = Some x -> firstn (S i) l = firstn i l ++ [x].
-Proof.
-  revert i; induction l as [|y l IH]; intros [|i] H; cbn in *; try discriminate.
-  - inversion H; reflexivity.
-  - f_equal. apply IH. exact H.
-Qed.
 
-Lemma Forall_firstn {A} (P : A -> Prop) k l : Forall P l -> Forall P (firstn k l).
-Proof. intros H. rewrite Forall_forall in *. intros x Hx. apply H. rewrite <- (firstn_skipn k l). apply in_or_app; left; exact Hx. Qed.
-Lemma Forall_skipn {A} (P : A -> Prop) k l : Forall P l -> Forall P (skipn k l).
-Proof. intros H. rewrite Forall_forall in *. intros x Hx. apply H. rewrite <- (firstn_skipn k l). apply in_or_app; right; exact Hx. Qed.
 
-Lemma nth_error_nth_skipn {A} (l : list A) i x : nth_error l i = Some x -> skipn i l = x :: skipn (S i) l.
-Proof.
-  revert i; induction l as [|y l IH]; intros [|i] H; cbn in *; try discriminate.
-  - inversion H; reflexivity.
-  - apply IH. exact H.
-Qed.
 
 Section Lookup.
 Variable cx : ctx.
@@ -93,9 +57,6 @@ End Lookup.
 Lemma lookup_for_is_for : match lookup_for with SFor _ _ _ => True | _ => False end.
 Proof. exact I. Qed.
 
-(* fold the loop of a function body into a name, so that evaluation stops in front of it *)
-Ltac fold_for name :=
-  match goal with |- context[SFor ?c ?p ?b] => change (SFor c p b) with name end.
 
 Theorem src_Lookup_spec cx n k vl : Forall is_avp vl -> length vl < n ->
   run cx n (fn src_Attributes_Lookup) [VList vl; VInt k] = Some (Some (lookup_result k vl)).
@@ -269,7 +230,6 @@ Qed.
 
 
 (* ---- the value-level results are the ordered-multimap operations of Spec/C09.v ---- *)
-Definition bytes_of (v : val) : bytes := match as_bytes v with Some l => l | None => [] end.
 
 Lemma abs_add vl k v : abs_attrs (vl ++ [vavp k v]) = spec_add k (bytes_of v) (abs_attrs vl).
 Proof. unfold abs_attrs, spec_add. rewrite map_app. reflexivity. Qed.
